@@ -58,10 +58,7 @@ theorem slot_kinds_wellformed :
     ∀ e ∈ Spec.flatten Model.kindTable, e.2.2 = Model.fnKind ∨ Owner.all.any (fun o => Model.selfKind o = e.2.2) = true := by
   decide +kernel
 
-set_option maxRecDepth 100000 in
-theorem behaviours_match_spec :
-    ∀ kv ∈ Spec.behaviours, Model.devBeh kv.1 = "-" → Spec.assoc kv.1 Model.behaviours = some kv.2 := by decide +kernel
-example : Spec.assoc "gmt_is_utc" Model.behaviours = some "false" ∧ Spec.assoc "gmt_is_utc" Spec.behaviours = some "true" := by decide
+theorem behaviours_match_spec : Model.behaviours = Spec.behaviours := rfl
 
 example : Model.aspect .RegExpPrototype "retest" = some "throws:TypeError" ∧ Spec.aspect .RegExpPrototype "retest" = some "true" := by decide
 example : Spec.aspect .ArrayPrototype "idxlen" = some "6" ∧ Spec.aspect .ObjectPrototype "idxlen" = some "same" := by decide
